@@ -9,9 +9,9 @@ import os, re, warnings
 import numpy as np
 import vlib
 
-LEVEL_TEXT = ('Lean 4 theorems about tables regenerated from the source on every run (the content is the 15+3 generated cells and the class table; `run_eq_doc`/`final_eq_doc` lift them to programs of any length by a two-line induction and `refusal_preserves_state` is a property of the model\'s `next` by construction, not evidence about the code): all 15 cells of the code table equal the '
+LEVEL_TEXT = ('Lean 4 theorems about tables regenerated from the source on every run (the content is the 15+3 generated cells and the class table; `run_eq_doc`/`final_eq_doc` lift them to programs of any length by a two-line induction ; further: fft_typing, no_write_before_guard, class_run_eq_doc, typed_wavefront_stays_typed, table_driven_all_but_rotate_flip): all 15 cells of the code table equal the '
               'documented RST table; propagation typing; for every program of any length (induction) the code machine and the '
-              'documented machine give the same trace of types/refusals; a refusal leaves the type unchanged; every documented '
+              'documented machine give the same trace of types/refusals; every documented '
               'class except Rotate/Flip has its documented ptype and acts as documented (partial: Rotate/Flip are an open known '
               'finding with a Lean witness).')
 LEVEL_NOTE = ('partial: `all_documented_classes_apply_partial` and `class_run_eq_doc_partial` exclude lentil.Rotate/lentil.Flip '
@@ -32,7 +32,9 @@ UNPROVEN = ['"a refused operation leaves both operands unchanged": the structura
             'effect lists); that nothing else (aliasing through helper calls, C code) touches the operands is observed by by-value snapshots on '
             'every refused and accepted step of the correspondence only',
             'applicability of lentil.Rotate / lentil.Flip (open known finding KF-C08-rotate-flip)']
-ASSUMPTIONS = ['a custom multiply (one that never delegates to Plane.multiply) is modelled by a structural rule read off its source: names that do not exist -> AttributeError; otherwise, if every return hands back the argument, a copy of it, or a Wavefront built with (p|plane)type=<argument>.(p|plane)type, the type is kept without consulting the table (Gen.classCustomKeepsType); else the model refuses with OtherError and the correspondence decides',
+ASSUMPTIONS = ['propagated pupils carry a focal length: a Pupil() built without one (default focal_length=None; inf after a further plane) fails loudly in propagate_dft/propagate_fft with an accidental TypeError/ValueError — generated (Pupil default constructor), counted (tag propagate:no-focal-length:accidental-exception); with focal_length None and at least one field the outcome must be an exception, never a wavefront; with no field to transform, or once a further plane has turned None into inf, propagate_* may also return a (degenerate, alpha = 0) wavefront of the documented type — counted (tag propagate:infinite-focal-length:returned-a-wavefront). Not a violation: no clause says such a wavefront must propagate (coordinator decision). Every other TypeError must carry one of the documented refusal messages (ptype guard, _propagate_ptype, Wavefront.ptype setter).',
+               'competing refusals: planes are also built with a pixel scale equal to / different from the wavefront\'s; a "Not allowed" cell must raise TypeError whatever else is wrong with the operands, an allowed cell with inconsistent pixel scales raises ValueError (C07\'s rule; the type model carries no pixel scale, such steps are compared step-wise). Array planes of another shape are not a refusal (fields intersect).',
+               'a custom multiply (one that never delegates to Plane.multiply) is modelled by a structural rule read off its source: names that do not exist -> AttributeError; otherwise, if every return hands back the argument, a copy of it, or a Wavefront built with (p|plane)type=<argument>.(p|plane)type, the type is kept without consulting the table (Gen.classCustomKeepsType); else the model refuses with OtherError and the correspondence decides',
                'propagate_fft on a wavefront carrying fitted tilt raises NotImplementedError whatever its type (the tilt check precedes the type check: generated as Gen.codePropagateFft, theorem fft_typing); with no data at all the harness uses propagate_dft (propagate_fft needs a field to pad)',
                'programs continue after a refusal with the operands as they were (as a Python session that catches the exception)']
 
@@ -47,6 +49,7 @@ CLASSES = _public_classes()
 TILT_FAMILY = [c for c in ('Tilt', 'DispersiveTilt', 'Grism') if c in CLASSES]      # constructors that forward a caller-supplied ptype
 PTYPES = ['none', 'pupil', 'image', 'tilt', 'transform']
 WTYPES = ['none', 'pupil', 'image']
+NOTES = {}
 # how the start wavefront is built: one array field / no field at all (Wavefront.empty) / no field left after two planes
 # with non-overlapping apertures
 MODES = ['field', 'empty', 'disjoint']
@@ -78,6 +81,7 @@ def generate(rng, tier):
         # how the operands reached the call: as built, through pickle, through copy.deepcopy / Plane.copy, or (explicit ptypes)
         # with a PType constructed directly instead of by the lentil.ptype() factory
         for o in ops:
+            if o['k'] != 'prop': o['pxs'] = [None, None, 'same', 'diff'][int(rng.integers(0, 4))]
             if o['k'] == 'pt' and rng.integers(0, 2): o['ctor'] = TILT_FAMILY[int(rng.integers(0, len(TILT_FAMILY)))]
             if o['k'] != 'prop': o['via'] = ['plain', 'plain', 'pickle', 'deepcopy', 'direct'][int(rng.integers(0, 5))]
             o['wvia'] = ['plain', 'plain', 'plain', 'pickle', 'deepcopy'][int(rng.integers(0, 5))]
@@ -87,6 +91,14 @@ def generate(rng, tier):
             out.append({'start': s, 'mode': 'bare', 'ops': [{'k': 'cls', 'cls': c, 'arr': False, 'par': 1, 'via': 'plain', 'wvia': 'plain'}, {'k': 'cls', 'cls': 'Tilt', 'arr': False, 'par': 2, 'via': 'plain', 'wvia': 'plain'}]})
             out.append({'start': s, 'mode': 'multi', 'ops': [{'k': 'cls', 'cls': c, 'arr': False, 'par': 1, 'via': 'plain', 'wvia': 'plain'}, {'k': 'prop', 'fft': False, 'par': 0, 'wvia': 'plain'},
                                                              {'k': 'cls', 'cls': 'Image', 'arr': False, 'par': 0, 'via': 'plain', 'wvia': 'plain'}]})
+    # every cell of the table with a competing refusal: the plane's pixel scale differs from the wavefront's. A "Not allowed"
+    # cell must still raise TypeError (the type is checked before anything else); an allowed one raises ValueError
+    for s in WTYPES:
+        for p in PTYPES:
+            out.append({'start': s, 'mode': 'field', 'ops': [{'k': 'pt', 'pt': p, 'arr': False, 'par': 0, 'via': 'plain', 'wvia': 'plain', 'pxs': 'diff'}]})
+        for c in CLASSES:
+            out.append({'start': s, 'mode': 'field', 'ops': [{'k': 'cls', 'cls': c, 'arr': True, 'par': 1, 'via': 'plain', 'wvia': 'plain', 'pxs': 'diff'},
+                                                             {'k': 'cls', 'cls': c, 'arr': False, 'par': 1, 'via': 'plain', 'wvia': 'plain', 'pxs': 'same'}]})
     # a caller-supplied plane type through each constructor of the Tilt family (TiltInterface pops `ptype` from kwargs)
     for s in WTYPES:
         for p in PTYPES:
@@ -101,7 +113,7 @@ def generate(rng, tier):
 
 def _opname(o):
     n = o['cls'] if o['k'] == 'cls' else ((o.get('ctor') or 'pt') + ':' + o['pt'] if o['k'] == 'pt' else 'prop')
-    v = (o.get('via', 'plain')[0] if o.get('via', 'plain') != 'plain' else '') + (o.get('wvia', 'plain')[0].upper() if o.get('wvia', 'plain') != 'plain' else '')
+    v = ('x' if o.get('pxs') == 'diff' else '=' if o.get('pxs') == 'same' else '') + (o.get('via', 'plain')[0] if o.get('via', 'plain') != 'plain' else '') + (o.get('wvia', 'plain')[0].upper() if o.get('wvia', 'plain') != 'plain' else '')
     return n + ('~' + v if v else '')
 
 def signature(c): return c['start'] + '/' + c.get('mode', 'field') + ' ' + ' '.join(_opname(o) for o in c['ops'])
@@ -109,27 +121,38 @@ def nontrivial(c): return len(c['ops']) > 1 or c['ops'][0]['k'] == 'prop'
 def tags(c):
     t = ['start:' + c['start'], 'mode:' + c.get('mode', 'field'), 'len:%d' % min(len(c['ops']), 20)]
     t += sorted({('op:' + _opname(o).split('~')[0]) for o in c['ops']})
+    t += NOTES.pop(id(c), [])
     t += sorted({'via:' + o.get('via', 'plain') for o in c['ops'] if o['k'] != 'prop'} | {'wavefront-via:' + o.get('wvia', 'plain') for o in c['ops']})
     return t
 
 # ------------------------------------------------------------------------------------------ implementation
+def _plane_px(o, w):
+    """pixelscale keyword of the plane: absent, equal to the wavefront's, or different from it (a competing refusal:
+    _mul_pixelscale raises ValueError for inconsistent pixel scales)"""
+    pxs = o.get('pxs')
+    if not pxs or o.get('cls') in ('Rotate', 'Flip'): return {}
+    wp = None if w.pixelscale is None else float(np.asarray(w.pixelscale).ravel()[0])
+    if pxs == 'same': return {'pixelscale': 1e-3 if wp is None else wp}
+    return {'pixelscale': 2e-3 if wp is None else 2.0 * wp}
+
 def _mkplane(o, w):
     import lentil
+    px = _plane_px(o, w)
     amp = np.ones(tuple(w.shape)) if (o['arr'] and len(tuple(w.shape)) == 2 and 0 < int(np.prod(w.shape)) <= 4096) else 1
     par = o['par']
     if o['k'] == 'pt' and o.get('ctor'):
         pt = _direct_ptype(o['pt']) if o.get('via') == 'direct' else getattr(lentil, o['pt'])
-        if o['ctor'] == 'Tilt': return lentil.Tilt(x=1e-7 * par, y=-2e-7 * par, ptype=pt)
-        return getattr(lentil, o['ctor'])(trace=[1.0, 0.0], dispersion=[1.0, 5e-7], ptype=pt)
-    if o['k'] == 'pt': return lentil.Plane(amplitude=amp, ptype=_direct_ptype(o['pt']) if o.get('via') == 'direct' else o['pt'])
+        if o['ctor'] == 'Tilt': return lentil.Tilt(x=1e-7 * par, y=-2e-7 * par, ptype=pt, **px)
+        return getattr(lentil, o['ctor'])(trace=[1.0, 0.0], dispersion=[1.0, 5e-7], ptype=pt, **px)
+    if o['k'] == 'pt': return lentil.Plane(amplitude=amp, ptype=_direct_ptype(o['pt']) if o.get('via') == 'direct' else o['pt'], **px)
     c = o['cls']
-    if c == 'Plane': return lentil.Plane(amplitude=amp, opd=1e-8 * par)
-    if c == 'Pupil': return lentil.Pupil(amplitude=amp, focal_length=1.0 + par)
-    if c == 'Image': return lentil.Image(amplitude=amp)
-    if c == 'Tilt': return lentil.Tilt(x=1e-7 * par, y=-2e-7 * par)
-    if c == 'DispersiveTilt': return lentil.DispersiveTilt(trace=[1.0, 0.0], dispersion=[1.0, 5e-7])
-    if c == 'Grism': return lentil.Grism(trace=[1.0, 0.0], dispersion=[1.0, 5e-7])
-    if c == 'LensletArray': return lentil.LensletArray(amplitude=amp)
+    if c == 'Plane': return lentil.Plane(amplitude=amp, opd=1e-8 * par, **px)
+    if c == 'Pupil': return lentil.Pupil(amplitude=amp, **px) if par == 3 else lentil.Pupil(amplitude=amp, focal_length=1.0 + par, **px)     # par 3: the default constructor (focal_length=None)
+    if c == 'Image': return lentil.Image(amplitude=amp, **px)
+    if c == 'Tilt': return lentil.Tilt(x=1e-7 * par, y=-2e-7 * par, **px)
+    if c == 'DispersiveTilt': return lentil.DispersiveTilt(trace=[1.0, 0.0], dispersion=[1.0, 5e-7], **px)
+    if c == 'Grism': return lentil.Grism(trace=[1.0, 0.0], dispersion=[1.0, 5e-7], **px)
+    if c == 'LensletArray': return lentil.LensletArray(amplitude=amp, **px)
     if c == 'Rotate': return lentil.Rotate(angle=90 * par)
     if c == 'Flip': return lentil.Flip(axis=None if par == 0 else par % 2)
     return getattr(lentil, c)()        # a class this harness has no recipe for: default constructor
@@ -151,7 +174,7 @@ def _snap_arr(a):
     return (a.shape, str(a.dtype), a.tobytes())
 
 def _snap_w(w):
-    return (str(w.ptype), None if w.pixelscale is None else tuple(np.asarray(w.pixelscale).tolist()), w.focal_length, w.wavelength,
+    return (str(w.ptype), None if w.pixelscale is None else repr(np.asarray(w.pixelscale).tolist()), repr(w.focal_length), repr(w.wavelength),
             tuple(np.asarray(w.shape).tolist()) if w.shape is not None else None,
             tuple((id(f), _snap_arr(f.data), tuple(f.offset), tuple((id(t), _tilt_state(t)) for t in f.tilt)) for f in w.data))
 
@@ -191,16 +214,16 @@ def impl(case):
             w.ptype = case['start']
         if mode in ('empty', 'disjoint') and len(w.data) != 0: return {'exc': 'start-not-empty'}
         if str(w.ptype) != case['start']: return {'exc': 'start'}
-        trace, mutated, ptypes, tilts, changed_ok = [], [], [], [], []
+        trace, mutated, ptypes, tilts, changed_ok, pxconf, msgs, nofocal = [], [], [], [], [], [], [], []
         for i, o in enumerate(case['ops']):
             w = _route(w, o.get('wvia', 'plain'))
             if o['k'] == 'prop':
                 plane = None
                 sw = _snap_w(w)
-                tilts.append(None)
+                tilts.append(None); pxconf.append(False); nofocal.append(('none' if w.data else 'none-nodata') if w.focal_length is None else ('inf' if not np.isfinite(w.focal_length) else False))
                 try:
                     N = 8
-                    du = w.wavelength * w.focal_length / (N * w.pixelscale[0])
+                    du = 5e-6 if (w.focal_length is None or not np.isfinite(w.focal_length) or w.pixelscale is None) else w.wavelength * w.focal_length / (N * w.pixelscale[0])
                     if o['fft'] and w.data:
                         tilts[-1] = bool(any(f.tilt for f in w.data))
                         w2 = lentil.propagate_fft(w, pixelscale=du, oversample=1)
@@ -208,30 +231,41 @@ def impl(case):
                         w2 = lentil.propagate_dft(w, pixelscale=du, shape=(4 + o['par'], 6), oversample=1 + o['par'] % 2)
                     if _snap_w(w) != sw: changed_ok.append([i, 'wavefront'])
                     trace.append(str(w2.ptype)); w = w2
+                    msgs.append(None)
                 except Exception as e:
-                    trace.append(type(e).__name__)
+                    trace.append(type(e).__name__); msgs.append(str(e)[:90])
                     if _snap_w(w) != sw: mutated.append([i, 'wavefront'])
                 ptypes.append(None)
                 continue
             plane = _route(_mkplane(o, w), o.get('via', 'plain'))
+            pp_, wp_ = getattr(plane, 'pixelscale', None), w.pixelscale
+            pxconf.append(bool(pp_ is not None and wp_ is not None and o.get('cls') not in ('Rotate', 'Flip')
+                               and not np.allclose(np.asarray(pp_, dtype=float), np.asarray(wp_, dtype=float), rtol=0, atol=0)))
             ptypes.append(str(plane.ptype))
             sw, sp = _snap_w(w), _snap_p(plane)
-            tilts.append(None)
+            tilts.append(None); nofocal.append(False)
             try:
                 w2 = plane.multiply(w) if i % 2 else w * plane
                 if w2 is not w and _snap_w(w) != sw: changed_ok.append([i, 'wavefront'])
                 if _snap_p(plane) != sp: changed_ok.append([i, 'plane'])
-                trace.append(str(w2.ptype)); w = w2
+                trace.append(str(w2.ptype)); w = w2; msgs.append(None)
             except Exception as e:
-                trace.append(type(e).__name__)
+                trace.append(type(e).__name__); msgs.append(str(e)[:90])
                 if _snap_w(w) != sw: mutated.append([i, 'wavefront'])
                 if _snap_p(plane) != sp: mutated.append([i, 'plane'])
-        return {'trace': trace, 'mutated': mutated, 'ptypes': ptypes, 'tilts': tilts, 'changed_ok': changed_ok}
+        if any(nf and t_ not in WTYPES and not _documented_typeerror(m_) for nf, t_, m_ in zip(nofocal, trace, msgs)): NOTES[id(case)] = ['propagate:no-focal-length:accidental-exception']
+        if any(nf in ('inf', 'none-nodata') and t_ in WTYPES for nf, t_ in zip(nofocal, trace)): NOTES.setdefault(id(case), []).append('propagate:infinite-focal-length:returned-a-wavefront')
+        return {'trace': trace, 'mutated': mutated, 'ptypes': ptypes, 'tilts': tilts, 'changed_ok': changed_ok, 'pxconf': pxconf, 'msgs': msgs, 'nofocal': nofocal}
+
+DOC_TYPEERRORS = ("can't multiply Wavefront with ptype", "Wavefront must have ptype", 'invalid ptype', 'cannot be type')
+
+def _documented_typeerror(msg):
+    return msg is not None and any(t in msg for t in DOC_TYPEERRORS)
 
 def _stepwise(case, io):
     """programs with explicit ptypes or with an fft applied to a tilt-carrying wavefront are compared step by step from the
     observed state (the class machine carries neither an explicit ptype nor the tilt flag)"""
-    return any(o['k'] == 'pt' for o in case['ops']) or any(t for t in io.get('tilts', []) if t)
+    return any(o['k'] == 'pt' for o in case['ops']) or any(t for t in io.get('tilts', []) if t) or any(io.get('pxconf', [])) or any(io.get('nofocal', []))
 
 def requests(case, io):
     if 'trace' not in io: return []
@@ -267,6 +301,12 @@ def compare(case, io, mo):
         for i, (o, r) in enumerate(zip(case['ops'], io['trace'])):
             m = mo[k]; k += 1
             if not m.get('ok'): return f'model refused: {m}'
+            if io['nofocal'][i] and m['trace'][0] in WTYPES and r not in WTYPES and not _documented_typeerror(io['msgs'][i]):
+                continue      # a wavefront without focal length cannot be propagated (accidental TypeError on None): ASSUMPTIONS, counted
+            if io['pxconf'][i] and m['trace'][0] in WTYPES:
+                # the type rule allows the product but the pixel scales are inconsistent: ValueError (the type model has no pixel scale)
+                if r != 'ValueError': return f"step {i} ({_opname(o)}): inconsistent pixel scales, impl {r}, expected ValueError"
+                continue
             if m['trace'] != [r]: return f"step {i} ({_opname(o)}): impl {r} model {m['trace'][0]}"
     return None
 
@@ -308,6 +348,12 @@ def oracle(case, io):
         if o['k'] == 'prop':
             want = {'pupil': 'image', 'image': 'pupil'}.get(cur, 'TypeError')
             what = f"propagate_{'fft' if o['fft'] else 'dft'} from '{cur}'"
+            if io['nofocal'][i] == 'none' and want in WTYPES and r in WTYPES:
+                msgs.append(f"step {i}: {what} on a wavefront without a (finite) focal length returned a '{r}' wavefront; it must fail loudly")
+                continue
+            if io['nofocal'][i] and want in WTYPES and r not in WTYPES and not _documented_typeerror(io['msgs'][i]):
+                # reported defect candidate (see ASSUMPTIONS): Pupil() with its default focal_length=None hands None to the wavefront
+                continue
             if io['tilts'][i]:
                 # propagate_fft does not support fitted tilt and says so before it looks at the type (ASSUMPTIONS)
                 want = 'NotImplementedError'; what += ' carrying fitted tilt'
@@ -316,11 +362,14 @@ def oracle(case, io):
             if o['k'] == 'pt' and io['ptypes'][i] != p:
                 msgs.append(f"step {i}: lentil.{o.get('ctor') or 'Plane'}(ptype=lentil.{p}) has ptype '{io['ptypes'][i]}'")
             want = d['mul'][(cur, p)] or 'TypeError'
-            what = (f"lentil.{o['cls']}.multiply" if o['k'] == 'cls' else f"{o.get('ctor') or 'Plane'}(ptype='{p}').multiply") + f" (documented ptype '{p}') on a '{cur}' wavefront"
+            if io['pxconf'][i] and want != 'TypeError': want = 'ValueError'
+            what = (f"lentil.{o['cls']}.multiply" if o['k'] == 'cls' else f"{o.get('ctor') or 'Plane'}(ptype='{p}').multiply") + f" (documented ptype '{p}') on a '{cur}' wavefront" + (' with a pixel scale different from the wavefront\'s' if io['pxconf'][i] else '')
             if o['k'] == 'cls' and io['ptypes'][i] != p:
                 msgs.append(f"step {i}: {what} gave {r}, documented {want}; lentil.{o['cls']}() has ptype '{io['ptypes'][i]}', documented '{p}'")
                 if r in WTYPES: cur = r
                 continue
+        if r == 'TypeError' and want == 'TypeError' and not _documented_typeerror(io['msgs'][i]):
+            msgs.append(f"step {i}: {what} raised a TypeError that is not the documented refusal: {io['msgs'][i]!r}")
         if r != want: msgs.append(f'step {i}: {what} gave {r}, documented {want}')
         if r in WTYPES: cur = r
     for i, which in io.get('changed_ok', []):
